@@ -842,6 +842,25 @@ def setter_contract(c):
     return h
 
 
+@method("arr", "flatten")
+def _arr_flatten(eng, recv, a, kw, st, fr, k, node):
+    """x.flatten() of a 1-D array: the same elements (a copy)"""
+    return k(recv, st)
+
+
+@method("vec", "argmin")
+def _vec_argmin(eng, recv, a, kw, st, fr, k, node):
+    """v.argmin(): the first index of a least element (requires a non-empty vector - numpy raises ValueError otherwise)"""
+    eng.oblige("safety", "argmin() of a non-empty sequence", st, recv.n > 0, node)
+    m = eng.fresh("argmin")
+    fn = recv.fn
+    S = eng.S
+    s2 = st.assume(z3.And(0 <= m, m < recv.n))
+    s2 = s2.assume(S.forall(0, recv.n, lambda j: fn(m) <= fn(j)))
+    s2 = s2.assume(S.forall(0, m, lambda j: fn(m) < fn(j)))
+    return k(m, s2)
+
+
 @method("arr", "max", "min")
 def _arr_max(eng, recv, a, kw, st, fr, k, node):
     """x.max() / x.min() of a 1-D column: the greatest / least element (requires a non-empty array)."""
